@@ -114,27 +114,47 @@ def lake_build(targets=()):
 
 
 def strip_comments(src):
-    # remove /- ... -/ (nested) and -- comments
+    """remove /- ... -/ (nested) and -- comments; string and character literals are kept intact"""
     out = []
     i = 0
     depth = 0
     n = len(src)
     while i < n:
-        if src.startswith('/-', i):
+        if depth:
+            if src.startswith('/-', i):
+                depth += 1
+                i += 2
+            elif src.startswith('-/', i):
+                depth -= 1
+                i += 2
+            else:
+                if src[i] == '\n':
+                    out.append('\n')
+                i += 1
+            continue
+        ch = src[i]
+        if ch == '"':
+            j = i + 1
+            while j < n and src[j] != '"':
+                j += 2 if src[j] == '\\' else 1
+            out.append(src[i:j + 1])
+            i = j + 1
+        elif ch == "'" and i + 2 < n and src[i + 1] == '\\':
+            j = src.find("'", i + 3)
+            j = j if j >= 0 else i
+            out.append(src[i:j + 1])
+            i = j + 1
+        elif ch == "'" and i + 2 < n and src[i + 2] == "'":
+            out.append(src[i:i + 3])
+            i += 3
+        elif src.startswith('/-', i):
             depth += 1
             i += 2
-        elif depth and src.startswith('-/', i):
-            depth -= 1
-            i += 2
-        elif depth:
-            if src[i] == '\n':
-                out.append('\n')
-            i += 1
         elif src.startswith('--', i):
             while i < n and src[i] != '\n':
                 i += 1
         else:
-            out.append(src[i])
+            out.append(ch)
             i += 1
     return ''.join(out)
 
